@@ -2,7 +2,7 @@
    SC.C15.Model instantiated at the real numbers (ROps); the correspondence check ties the same
    model, instantiated at binary64, to src/metrics/*.rs. *)
 From Coq Require Import List ZArith Reals Bool Arith Lia Lra Permutation Sorted.
-From SC Require Import Base.Num C15.Model C15.ProofsBasic C15.ProofsAUC C15.ProofsHCV C15.ProofsHCV2.
+From SC Require Import Base.Num C15.Model C15.ProofsBasic C15.ProofsAUC C15.ProofsHCV C15.ProofsHCV2 C15.ProofsHCV3.
 Import ListNotations.
 Local Open Scope R_scope.
 
@@ -142,6 +142,19 @@ Qed.
 Theorem C15_hcv_in_unit_interval : forall a b h c v, length a = length b -> a <> [] ->
   hcv ROps a b = Some (h, c, v) -> 0 <= h <= 1 /\ 0 <= c <= 1 /\ 0 <= v <= 1.
 Proof. exact hcv_unit_interval. Qed.
+
+(* extension (Gibbs' inequality): the mutual information H(C) - H(C|K) is non-negative, so in exact
+   arithmetic the code's max(0, .) is the identity and the scores are the textbook ones,
+   h = 1 - H(C|K)/H(C) and c = 1 - H(K|C)/H(K) whenever the denominators are non-zero *)
+Theorem C15_hcv_textbook : forall a b, length a = length b -> a <> [] ->
+  hcv ROps a b = Some (hcv_of (Hlab a - Hcond a b) (Hlab a) (Hlab b)) /\
+  0 <= Hlab a - Hcond a b.
+Proof. exact hcv_textbook. Qed.
+
+Theorem C15_hcv_textbook_ratios : forall a b h c v, length a = length b -> a <> [] ->
+  hcv ROps a b = Some (h, c, v) ->
+  (Hlab a <> 0 -> h = 1 - Hcond a b / Hlab a) /\ (Hlab b <> 0 -> c = 1 - Hcond b a / Hlab b).
+Proof. exact hcv_textbook_ratios. Qed.
 
 (* ------------------------------------------------------------------------------------------------
    hypotheses are satisfiable *)
